@@ -71,7 +71,11 @@ RankOf(rank) == [v \in SeqSet(rank) |-> CHOOSE i \in DOMAIN rank : rank[i] = v]
 ShuffleList(l, rk) == SetToSortSeq(SeqSet(l), LAMBDA a, b : rk[a] < rk[b])
 
 -----------------------------------------------------------------------------
-(* UpdateShufflerConfig: flags and NodesToShufflePerShard for the epoch of the call *)
+(* UpdateShufflerConfig: flags and NodesToShufflePerShard for the epoch of the call.                      *)
+(* They are functions of the shuffler's configuration and of the epoch of THIS call only: the shuffler has  *)
+(* no history variable (`conf` never changes), so a call for an earlier epoch after a later one, or on a    *)
+(* fresh instance, gives the same result (C13: equal inputs => equal outputs whatever was computed before;  *)
+(* the harness runs every call also on instances that served later / earlier epochs).                       *)
 FixOn(c) == c.epoch >= c.fixEpoch
 BalOn(c) == c.epoch >= c.balEpoch
 MaxSwap(c) ==
